@@ -25,7 +25,7 @@ LOOP_CLASSES = [
     ('find_rule_for', re.compile(r'for \( ; ; \)')),
     ('move', re.compile(r'for \( i = 0; i < number_to_move')),
     ('grow', re.compile(r'while \( num_to_read <= 0 \)')),
-    ('lineno', re.compile(r'for \( yyl = ')),
+    ('lineno', re.compile(r'for \( yyl = |YY_LINENO_REWIND_TO')),
     ('getc', re.compile(r'for \( n = 0; n < max_size')),
     ('fread', re.compile(r'while \( \(result = ')),
     ('shiftup', re.compile(r'while \( source > ')),
@@ -122,6 +122,22 @@ def classify_loops(job, gb):
                         break
                 if cls:
                     break
+            if cls in ('goto_match', 'goto_find_action'):
+                # which arm of the end-of-buffer case the back edge belongs to (NUL transition, refill
+                # continued, last match): the arms have different bounds for a given kind of source
+                for d in range(1, 16):
+                    t = _src_line(cache, path, line - d)
+                    sub = None
+                    if 'case EOB_ACT_CONTINUE_SCAN' in t:
+                        sub = 'cont'
+                    elif 'case EOB_ACT_LAST_MATCH' in t:
+                        sub = 'last'
+                    elif 'yy_try_NUL_trans' in t or 'Consume the NUL' in t or 'Still need to initialize' in t:
+                        sub = 'nul'
+                    if sub:
+                        if (cls + '_' + sub) in job.bounds:
+                            cls = cls + '_' + sub
+                        break
             key = '%s@%s' % (cls, fn)
             if cls is None and ('fn:' + fn) in job.bounds:
                 cls = 'fn:' + fn
